@@ -174,6 +174,29 @@ INFO = {
                      "expiry wake-up and the fold makes it return None long before the timeout", ["C16", "C08"]),
     "C19-4": ("C19", "the string is resolved with to_socket_addrs(): a host:port text the local resolver knows "
                      "(localhost:80) is classified as a socket address", ["C19"]),
+    "C01-5": ("C01", "the start-up cache is filled with push_front and for_each pops from the back (still FIFO), but "
+                     "for_each_async / enqueue still pop_front: messages cached before the listener call arrive reversed", ["C01", "C15"]),
+    "C02-5": ("C02", "a partial multi-byte prefix is buffered and the next chunk completes it and carries payload: up to "
+                     "10 - stored bytes of the chunk are skipped instead of the prefix bytes appended", ["C02", "C01"]),
+    "C04-5": ("C04", "FramedTcp with a keepalive configuration the OS rejects: the stream's descriptor is closed on the error "
+                     "path right when the connection becomes ready: the peer sees EOF, no Message, no Disconnected ever", ["C04", "C18"]),
+    "C05-5": ("C05", "for_each_async: during the replay of cached start-up events the guard of a hand-made ticket lock is a "
+                     "temporary dropped before the callback runs: a signal callback overlaps a replayed network event", ["C05"]),
+    "C06-5": ("C06", "enque_timers breaks after taking the 1025th command out of the channel: with more than 1024 timer "
+                     "commands pending one command is dropped per receive call", ["C06", "C07", "C08"]),
+    "C07-5": ("C07", "try_receive fast path returns the oldest plain event when no priority event and no timer *command* is "
+                     "waiting, forgetting timers already folded into the map: plain before an expired timer", ["C07"]),
+    "C08-5": ("C08", "EventSender::new builds the sequence counter itself, so every clone starts its own at 0: same-instant "
+                     "timers from different clones get equal ids (overwrite, cross-cancel)", ["C08", "C06"]),
+    "C09-5": ("C09", "for_each (sync): the signal thread tests is_running() before taking the callback lock: stop() inside a "
+                     "network callback while the signal thread holds a dequeued signal and waits for the lock", ["C09"]),
+    "C10-5": ("C10", "an empty FramedTcp message (one byte on the wire) is sent without the lock: it lands inside a frame "
+                     "another thread is writing", ["C10"]),
+    "C13-5": ("C13", "Connected(endpoint, false) is reported before the failed resource is deregistered: a send() from "
+                     "inside that callback answers ResourceNotAvailable instead of ResourceNotFound", ["C13", "C14"]),
+    "C16-5": ("C16", "receive_timeout keeps a running 'remaining' and subtracts the cumulative elapsed time from it: after "
+                     "two wake-ups by timer commands that make nothing deliverable it answers None before the timeout", ["C16", "C08"]),
+    "C19-5": ("C19", "an ip:port text with port 0 (127.0.0.1:0, [::1]:0) is classified as a string", ["C19"]),
     "C19-1": ("C19", "SocketAddrV6 with non-zero flowinfo/scope_id converted to RemoteAddr: the fields are dropped", ["C19"]),
 }
 
